@@ -709,25 +709,48 @@ func ruleArith(c *Ctx) {
 
 	// augmented assignment: statement-level token -> AugOp switch, then augAssignOp clauses
 	tokToAug := map[string]string{}
-	sfd := c.funcDecl("internal/compiler", "compiler.stmt")
 	cinfo := c.pkg("internal/compiler").TypesInfo
-	if sfd != nil {
+	// the switch may live in the statement compiler or in a helper of its own: every case clause of package
+	// compiler whose labels are lexer tokens and whose body names exactly one AugOp constant
+	for _, sfd := range c.allFuncDecls("internal/compiler") {
+		if sfd.Body == nil {
+			continue
+		}
 		ast.Inspect(sfd.Body, func(nd ast.Node) bool {
 			cc, ok := nd.(*ast.CaseClause)
 			if !ok {
 				return true
 			}
+			augs := map[string]bool{}
 			for _, s := range cc.Body {
-				if as, ok := s.(*ast.AssignStmt); ok && len(as.Lhs) == 1 && len(as.Rhs) == 1 {
-					if id, ok := as.Lhs[0].(*ast.Ident); ok && id.Name == "augOp" {
-						a := constName(cinfo, as.Rhs[0])
-						if cc.List == nil {
-							tokToAug["default"] = a
-						}
-						for _, e := range cc.List {
-							tokToAug[constName(cinfo, e)] = a
+				if _, nested := s.(*ast.SwitchStmt); nested {
+					continue
+				}
+				ast.Inspect(s, func(m ast.Node) bool {
+					if _, isCC := m.(*ast.CaseClause); isCC {
+						return false
+					}
+					if id, ok := m.(*ast.Ident); ok {
+						if k, ok := cinfo.Uses[id].(*types.Const); ok && isNamed(k.Type(), modPath+"/internal/compiler", "AugOp") {
+							augs[k.Name()] = true
 						}
 					}
+					return true
+				})
+			}
+			if len(augs) != 1 {
+				return true
+			}
+			a := ""
+			for k := range augs {
+				a = k
+			}
+			if cc.List == nil {
+				tokToAug["default"] = a
+			}
+			for _, e := range cc.List {
+				if tv := cinfo.TypeOf(e); tv != nil && isNamed(tv, modPath+"/lexer", "Token") {
+					tokToAug[constName(cinfo, e)] = a
 				}
 			}
 			return true
